@@ -459,6 +459,18 @@ def _rebind(mod):
     for nm, fn in (('min', _smin), ('max', _smax), ('mean', _smean), ('median', _smedian), ('std', _sstd)):
         if nm in d and getattr(d[nm], '__module__', '') and d[nm] is getattr(_np, nm, None):
             d[nm] = fn
+    if 'dumps' in d and callable(d['dumps']) and not getattr(d['dumps'], '_sx', False):
+        real_dumps = d['dumps']
+
+        def dumps(obj, *a, **k):
+            if isinstance(obj, text.SText):
+                h = obj.single_hole()
+                if h is None or h.kind != 'raw':
+                    raise core.Unsupported("json.dumps of composite symbolic text")
+                return text.SText([text.Hole('json', None, h.term)])    # axiom: loads(dumps(s)) == s
+            return real_dumps(obj, *a, **k)
+        dumps._sx = True
+        d['dumps'] = dumps
     if 'locale' in d and getattr(d['locale'], '__name__', '') == 'locale':
         d['locale'] = _LocaleProxy()
     if d.get('np') is _np:
